@@ -563,6 +563,8 @@ func (e *eng) Exec(op []string) string {
 			}
 		}
 		return "member=" + common.B2s(member) + " " + m.pu()
+	case "racejoin":
+		return e.racejoin(a(1), a(2), a(3))
 	case "p9":
 		return e.p9(op, fin)
 	case "whipdl":
@@ -786,6 +788,12 @@ func gen(t *common.Trace, e common.Engine, r *common.Rng, thorough bool) {
 	t.Case("shutdowndl")
 	e.Reset()
 	common.Do(t, e, "shutdowndl")
+	// overlapping joins with a slow password check against max-clients (C10: capacity under every interleaving)
+	t.Case("racejoin")
+	e.Reset()
+	for _, mx := range []int{1, 2, 3} {
+		common.Do(t, e, fmt.Sprintf("racejoin %d %d %d", 6, mx, 60000))
+	}
 	ge := e.(*eng)
 	ge.Reset()
 	ge.probe()
